@@ -319,6 +319,10 @@ class Sym:
                 return f if isinstance(op, ast.Is) else neg(f)
             if isinstance(op, (ast.Is, ast.IsNot, ast.Eq, ast.NotEq)) and isinstance(a, (ast.Name, ast.Attribute)) and unparse(a) == unparse(b):
                 return isinstance(op, (ast.Is, ast.Eq))  # the same variable / field compared with itself
+            if isinstance(op, (ast.Is, ast.IsNot)):
+                ta, tb = sorted([unparse(a), unparse(b)])
+                f = lit(f"{ta} is {tb}")
+                return f if isinstance(op, ast.Is) else neg(f)
             if isinstance(op, (ast.Eq, ast.NotEq)):
                 ca, cb = self.const_of(a), self.const_of(b)
                 if ca is not None and cb is not None:
